@@ -144,7 +144,7 @@ def run(tier, seed):
     ck.rule = ("base scenario (C01 grammar, short streams) x variants: whole reads (reference), 1-byte reads, PRNG cuts, fixed k, every single cut "
                "position and sampled/all double cut positions of the global output stream; decorations: CR insertion, complete escape "
                "sequences (CSI/SGR/OSC-title/ESC 7,8,M,E) at character boundaries, read cuts anywhere (also inside a sequence), rough mode with junk "
-               "interleaved in the echo. Non-trivial = variant differs from the reference in segmentation or decoration; distinct by (base, variant). "
+               "interleaved in the echo; the timed read loop (send_and_read) with the line going quiet for a whole transport timeout at any point, also inside a sequence. Non-trivial = variant differs from the reference in segmentation or decoration; distinct by (base, variant). "
                "Oracle: results, failed flags, bytes written, device exec log and completion identical to the reference run; raw results equal up to "
                "leading/trailing blanks. Each variant is replayed on the Lean model with the recorded read sizes.")
     ck.trusted = ["Lean 4.33.0 kernel; axioms audited", "tools/gen/c01.py", "tools/rx2lean.py + Rx.lean (regex fragment model)", "harness: simdevice/simtransport/chanscen (causal device, Decorator)"]
@@ -236,6 +236,7 @@ def run(tier, seed):
             ck.case(("f10", host, str(cuts[:20])), nontrivial=True, tags=("f10-stream",))
             if observables(b, br) != observables(v, vr):
                 ck.violation({"base": b.describe(), "variant": v.describe(), "known": "F10", "tag": "f10"}, "generic prompt prefix matched early", matcher)
+    timed_family(ck, tier, seed, modelq)
     ansi_differential(ck, tier)
     try:
         outs = run_model("C01", [q[0] for q in modelq], native=True) if modelq else []
@@ -250,6 +251,62 @@ def run(tier, seed):
         else:
             ck.disagree("channel model vs real channel (variant replay)", desc, f"model={out[:300]} real={want[:300]}")
     return ck.finish()
+
+
+def timed_family(ck, tier, seed, modelq):
+    """the timed read loop (`send_and_read` -> `_read_until_prompt_or_time`): a transport read that times out is swallowed there, so
+    the line may go quiet for a whole transport timeout ANYWHERE in the response -- also in the middle of an escape sequence -- and
+    the read before it ends at that point.  Neither the segmentation nor the pauses may show in the result or in what follows."""
+    for bi in range(8 if tier == "quick" else 60):
+        rng = random.Random(f"{seed}-timed-{bi}")
+        base = gen_base(rng, tier)
+        cmds = [c for c in base.outputs if base.outputs[c]]
+        if not cmds or base.echo_junk or base.rough:
+            continue
+        c1, c2 = rng.choice(cmds), rng.choice(cmds)
+        base.ops = [("send_and_read", c1, ["NEVER-SEEN-TEXT"], rng.random() < 0.7), ("send_command", c2, True, False)]
+        base.questions, base.commandeer, base.banner = {}, False, b""
+        kind = ["ansi", "ansi+cr", "ansi", None][bi % 4]
+        base.decor = {"kind": kind, "seed": rng.randrange(10**6), "p": rng.choice([0.15, 0.3, 0.5])} if kind else None
+        ref = copy.deepcopy(base)
+        ref.decor = None
+        rres = run_real(ref)
+        ck.case(("timed-ref", json.dumps(ref.describe(), sort_keys=True, default=str)), nontrivial=False, tags=("reference", "timed"))
+        probs = c01.oracle(ref, rres)
+        if probs:
+            ck.violation({"base": ref.describe(), "problems": probs[:3], "tag": "timed-ref"}, "reference run (send_and_read) itself violates framing: " + probs[0])
+            continue
+        bres = run_real(base)
+        # the part of the output stream that the timed loop reads: the response to the return that follows the input of the first op
+        wi = next((i for i, w in enumerate(bres.writes) if i >= bres.writes_before[0] and w == c1.encode()), None)
+        if wi is None or wi + 1 >= len(bres.dev_outputs):
+            continue
+        start = len(bres.init_avail) + sum(len(x) for x in bres.dev_outputs[:wi + 1])
+        # the line may go quiet anywhere BEFORE the prompt line has begun to arrive (a pause later than that could fall after the
+        # operation has returned, into a read of the next operation, where a transport timeout is an error by design)
+        end = start + bres.dev_outputs[wi + 1].rfind(b"\n") + 2
+        inner = list(range(start + 1, end))
+        if not inner:
+            continue
+        inside = [k for k in inner if bres.decorator and bres.decorator.inside_span(k)]
+        picks = set(rng.sample(inner, min(len(inner), 6 if tier == "quick" else 40)))
+        picks |= set(rng.sample(inside, min(len(inside), 10 if tier == "quick" else 80)))
+        vs = []
+        for k in sorted(picks):
+            v = copy.deepcopy(base)
+            v.cut_at, v.pauses = [k], [k]
+            vs.append((f"pause@{k}", v))
+        for _ in range(2 if tier == "quick" else 8):
+            v = copy.deepcopy(base)
+            v.cuts = [rng.choice([1, 1, 2, 3, 5, 8]) for _ in range(20000)]
+            v.pauses = sorted(rng.sample(inner, min(len(inner), rng.randint(1, 5))))
+            vs.append(("pauses+rand", v))
+        for tag, v in vs:
+            vres = run_real(v)
+            fired = sum(1 for x in vres.conn.transport.trace if x[0] == "pause")
+            ck.case(("timed", bi, tag, str(v.pauses), str(v.cuts[:30])), nontrivial=fired > 0,
+                    tags=("timed", tag.split("@")[0], "pause-inside-sequence" if any(k in inside for k in v.pauses) else "pause-in-text", base.platform, base.stack))
+            compare(ck, ref, rres, "timed-" + tag, v, vres, modelq)
 
 
 def ansi_differential(ck, tier):
